@@ -1308,6 +1308,12 @@ class LinearOperator(object):
         :param upper: Upper triangular or lower triangular factor (default: False).
         :return: Cholesky factor (lower or upper triangular)
         """
+        if not self.is_square:
+            raise RuntimeError(
+                "cholesky only operates on (batches of) square (positive semi-definite) LinearOperators. "
+                "Got a {} of size {}.".format(self.__class__.__name__, self.size())
+            )
+
         chol = self._cholesky(upper=False)
         if upper:
             chol = chol._transpose_nonbatch()
@@ -1704,6 +1710,12 @@ class LinearOperator(object):
         :returns: The inverse quadratic term (or None), and the logdet term (or None).
             If `reduce_inv_quad=True`, the inverse quadratic term is of shape (...). Otherwise, it is (... x M).
         """
+        if not self.is_square:
+            raise RuntimeError(
+                "inv_quad_logdet only operates on (batches of) square (positive semi-definite) LinearOperators. "
+                "Got a {} of size {}.".format(self.__class__.__name__, self.size())
+            )
+
         # Special case: use Cholesky to compute these terms
         if settings.fast_computations.log_prob.off() or (self.size(-1) <= settings.max_cholesky_size.value()):
             from linear_operator.operators.chol_linear_operator import CholLinearOperator
